@@ -263,6 +263,36 @@ class SymV:
         self.interp.call_contracts[id(key)] = CallContract(name, requires, result)
         self.interp.stub_objs[("con", id(key))] = key
 
+    def stub(self, obj, fn):
+        """model an external callable (identified by object identity) for this harness: fn(interp, *args, **kw)"""
+        self.interp.register_stub(obj, fn)
+
+    def call_tail(self, fn, after_last_assignment_to, env, returns=True):
+        """run the statements of the real function `fn` that follow the last top-level assignment to the given
+        variable, in the environment `env` (a mechanical slice of the real AST; what is dropped: everything before)"""
+        import ast as _ast
+        from .interp import func_node, Frame, source_segment
+        node, filename, sha = func_node(fn)
+        idx = None
+        for i, st in enumerate(node.body):
+            targets = []
+            if isinstance(st, _ast.Assign):
+                targets = st.targets
+            elif isinstance(st, _ast.AugAssign):
+                targets = [st.target]
+            for t in targets:
+                if isinstance(t, _ast.Name) and t.id == after_last_assignment_to:
+                    idx = i
+        if idx is None:
+            raise Unsupported("no top-level assignment to %r in %s" % (after_last_assignment_to, fn.__qualname__))
+        tail = _ast.FunctionDef(name=node.name, args=_ast.arguments(posonlyargs=[], args=[], kwonlyargs=[], kw_defaults=[], defaults=[]),
+                                body=node.body[idx + 1:], decorator_list=[], lineno=node.body[idx + 1].lineno, col_offset=0)
+        qn = self.interp.qualname_of(fn)
+        self.interp.interpreted.setdefault(qn + "[tail after last assignment to %s, line %d]" % (after_last_assignment_to, node.body[idx].lineno), source_segment(fn))
+        frame = Frame(fn.__globals__, None, {}, qn, tail, filename)
+        frame.locals.update(env)
+        return self.interp.run_body(tail, frame)
+
     def override_global(self, module_name, name, value):
         """interpreted code of `module_name` sees `value` for its global `name` (e.g. default_units -> unit abstraction)"""
         from .interp import Frame
